@@ -206,6 +206,37 @@ let run_store kind conv id toks =
          end
        | _ -> bad ());
       go r
+    | "z" :: ps :: r when tree ->
+      (* configAssign(cfg, path, NULL): the element is there afterwards, without value *)
+      let (h, sep, s) = parse_spec ps in
+      (match mkpath_of (s, sep), base_path h with
+       | Some p, Some b ->
+         let out = wc (wdo (WAssignNone (b, p))) in
+         let (h', sout) = wsstep !hist (HAssignNone (base_key h, str_key s sep)) (out = OutRc RcOk) in
+         hist := h';
+         let show = function OutRc RcOk -> "ok+" | OutRc RcCleared -> "ok" | OutRc _ -> "no" | OutFault -> "F" | _ -> "U" in
+         emit (show out) (show (wc sout))
+       | _ -> bad ());
+      go r
+    | "t" :: ps :: ty :: v :: r ->
+      (* configAssign(cfg, path, value) with a typed value: text in a string, a vector of char or
+         an array of char is text; an integer holds none and is refused *)
+      let (h, sep, s) = parse_spec ps in
+      let v = if ty = "p" then [] else bytes_of_hex v in
+      (match mkpath_of (s, sep), base_path h with
+       | Some p, Some b ->
+         if ty = "i" then begin
+           let out = wc (wdo (WAssignBad (b, p))) in
+           let (h', sout) = wsstep !hist (HAssignBad (base_key h)) true in
+           hist := h';
+           emit (show_rc `A out) (show_rc `A (wc sout))
+         end else begin
+           let out = wc (wdo (WVt (CAssign (b, p, v)))) in
+           let sout = s_assign h s sep v out in
+           emit (show_rc `A out) (show_rc `A sout)
+         end
+       | _ -> bad ());
+      go r
     | "z" :: ps :: r ->
       let (_, sep, s) = parse_spec ps in
       (match mkpath_of (s, sep) with
@@ -359,12 +390,56 @@ let run_path cxx id toks =
     Printf.printf "M %s%s\nS %s%s\n" id (Buffer.contents mt) id (Buffer.contents st)
   | _ -> ()
 
+(* kind M: mpt_meta_set on one metatype reference *)
+let run_metaset id toks =
+  let c = ref CNull and txt = ref None in
+  let mt = Buffer.create 256 and st = Buffer.create 256 in
+  let show_text = function None -> "E" | Some v -> "V" ^ venc v in
+  let pm b = if b then "+" else "-" in
+  let kind = function
+    | CNull -> "0" | CDefault -> "d" | CText _ -> "t" | CObj (a, _) -> "o" ^ pm a | CCfg (a, _) -> "c" ^ pm a
+    | CIter (a, _) -> "i" ^ pm a | CView -> "w" in
+  let harness_made = function CObj _ | CCfg _ | CIter _ -> true | _ -> false in
+  let emit r rs ident c' rel txt' =
+    Buffer.add_string mt (Printf.sprintf " m:%s|%s|%s|%s|u%d" r ident (kind c') (show_text (cell_text c')) rel);
+    Buffer.add_string st (Printf.sprintf " m:%s|%s" rs (show_text txt')) in
+  let set a =
+    let ((r, c'), rel) = meta_set_cell !c a in
+    let same = match r with
+      | MErr -> true
+      | MOk -> (match !c, c' with
+          | CObj _, CObj _ | CCfg _, CCfg _ | CIter _, CIter _ | CDefault, CDefault -> true
+          | CText _, CText _ -> a = ANone
+          | _ -> false) in
+    let dropped = (cell_text c' = None) in
+    let txt' = cell_spec !txt a (r = MOk) dropped in
+    (* the specification's result class: a value without text is refused, "no value" accepted,
+       text as the implementation decided *)
+    let rm = if r = MOk then "ok" else "e" in
+    let rs = match a with ABad -> "e" | ANone -> "ok" | AText _ -> rm in
+    emit rm rs (if same then "=" else "!") c' (if rel && harness_made !c then 1 else 0) txt';
+    c := c'; txt := txt' in
+  let install c' = c := c'; txt := cell_text c'; emit "ok" "ok" "+" c' 0 !txt in
+  let rec go = function
+    | [] -> ()
+    | ("s" | "v") :: h :: r -> set (AText (bytes_of_hex h)); go r
+    | "i" :: r -> set ABad; go r
+    | "0" :: r -> set ANone; go r
+    | "obj" :: m :: r -> install (CObj (m = "a", None)); go r
+    | "cfg" :: m :: r -> install (CCfg (m = "a", None)); go r
+    | "it" :: m :: r -> install (CIter (m = "a", bytes_of_hex "6974")); go r
+    | "view" :: _ :: r -> install CView; go r
+    | t :: _ -> failwith ("bad op " ^ t) in
+  go toks;
+  Printf.printf "M %s%s\nS %s%s\n" id (Buffer.contents mt) id (Buffer.contents st)
+
 let () =
   let ic = open_in Sys.argv.(1) in
   List.iter (fun line ->
     match split_ws line with
     | id :: "P" :: r -> run_path false id r
     | id :: "Q" :: r -> run_path true id r
+    | id :: "M" :: r -> run_metaset id r
     | id :: "T" :: _ -> Printf.printf "M %s config.133.1.133.1\nS %s config.133.1.133.1\n" id id
     | id :: k :: r when k = "G" || k = "R" || k = "J" || k = "H" || k = "X" -> run_store k.[0] false id r
     | id :: k :: r when k = "Gc" || k = "Rc" || k = "Hc" || k = "Xc" -> run_store k.[0] true id r
